@@ -199,8 +199,9 @@ def run_reject(case: Dict[str, Any], ctx) -> None:
             warnings.simplefilter("ignore")
             w, wo = F.mse_loss(a, b, **kw), F.mse_loss(a, b)
     elif (fn, what) == ("softmax", "_stacklevel"):
-        u = lambda: U.softmax(x, dim=-1, _stacklevel=5)
-        w = wo = None  # absent from the library signature: must be rejected
+        # _stacklevel only moves a deprecation warning in PyTorch: honouring it (same values) and rejecting it are both fine
+        u = lambda: U.softmax(x, dim=-1, _stacklevel=5, constraint=None)
+        w = wo = F.softmax(x, dim=-1, _stacklevel=5)
     elif (fn, what) == ("softmax", "dtype"):
         expect_honoured = True
         x32 = x.float()
